@@ -15,7 +15,8 @@
 //!        checker `routeValid` and its own run of the recurrence.
 //!   noroute <req> X <k> <scid>* G <n> <chan>*     router returned Err -> ref=found|ref=none (reference
 //!        single-path reachability, same definition on both sides)
-//!   <req>  = <payer> <payee> <amt> <maxfee|-> <maxcltv> <maxpaths> <maxlen> <finalcltv>
+//!   <req>  = <payer> <payee> <amt> <maxfee|-> <maxcltv> <maxpaths> <maxlen> <finalcltv> <mpp> <satpow> <scorer> <seed>
+//!            (the last four only make a line replayable: `c16 c16replay --replay FILE`; the model ignores them)
 //!   <chan> = <scid> <src> <dst> <enabled> <htlcmin> <htlcmax> <cap_msat|-> <base> <prop> <cltv>
 //! The graph on the line is dumped from `NetworkGraph::read_only()` (not from what the generator sent).
 use bitcoin::amount::Amount;
@@ -148,7 +149,9 @@ fn fees_model(args: &Args) {
 struct Chan { scid: u64, src: usize, dst: usize, enabled: bool, hmin: u64, hmax: u64, cap: Option<u64>, base: u64, prop: u64, cltv: u64 }
 impl Chan { fn limit(&self) -> u64 { match self.cap { Some(k) => self.hmax.min(k), None => self.hmax } } }
 #[derive(Clone, Debug)]
-struct Req { payer: usize, payee: usize, amt: u64, maxfee: Option<u64>, maxcltv: u64, maxpaths: u64, maxlen: u64, finalcltv: u64, excluded: Vec<u64> }
+struct Req { payer: usize, payee: usize, amt: u64, maxfee: Option<u64>, maxcltv: u64, maxpaths: u64, maxlen: u64, finalcltv: u64, excluded: Vec<u64>,
+	/// replay information only (not part of the property): payee advertises MPP, saturation power, scorer kind, seed byte
+	mpp: bool, satpow: u8, scorer: u64, seed0: u8 }
 #[derive(Clone, Debug)]
 struct Hop { scid: u64, node: usize, fee: u64, cltv: u64 }
 
@@ -259,8 +262,8 @@ fn reference(g: &[Chan], q: &Req, edge_ok: &dyn Fn(&Chan) -> bool) -> bool {
 }
 
 fn req_str(q: &Req) -> String {
-	format!("{} {} {} {} {} {} {} {} X {}{}", q.payer, q.payee, q.amt, q.maxfee.map_or("-".to_string(), |m| m.to_string()), q.maxcltv, q.maxpaths, q.maxlen, q.finalcltv,
-		q.excluded.len(), q.excluded.iter().map(|s| format!(" {}", s)).collect::<String>())
+	format!("{} {} {} {} {} {} {} {} {} {} {} {} X {}{}", q.payer, q.payee, q.amt, q.maxfee.map_or("-".to_string(), |m| m.to_string()), q.maxcltv, q.maxpaths, q.maxlen, q.finalcltv,
+		q.mpp as u8, q.satpow, q.scorer, q.seed0, q.excluded.len(), q.excluded.iter().map(|s| format!(" {}", s)).collect::<String>())
 }
 fn graph_str(g: &[Chan]) -> String {
 	format!("G {}{}", g.len(), g.iter().map(|c| format!(" {} {} {} {} {} {} {} {} {} {}", c.scid, c.src, c.dst, c.enabled as u8, c.hmin, c.hmax, c.cap.map_or("-".to_string(), |k| k.to_string()), c.base, c.prop, c.cltv)).collect::<String>())
@@ -416,9 +419,9 @@ fn router_model(args: &Args) {
 			if !plain && rng.chance(1, 4) { for _ in 0..rng.range(1, 3) { pp.previously_failed_channels.push(rng.pick(&g).scid); } }
 			let maxfee = if plain { if rng.chance(1, 2) { None } else { Some(amt / 100 + 50_000) } } else { match rng.below(6) { 0 => None, 1 => Some(rng.below(2000)), 2 => Some(amt / 100 + 50_000), 3 => Some(rng.below(amt / 10 + 10)), 4 => Some(0), _ => None } };
 			let params = RouteParameters { payment_params: pp.clone(), final_value_msat: amt, max_total_routing_fee_msat: maxfee };
-			let q = Req { payer, payee, amt, maxfee, maxcltv: pp.max_total_cltv_expiry_delta as u64, maxpaths: pp.max_path_count as u64, maxlen: pp.max_path_length as u64, finalcltv: finalcltv as u64, excluded: pp.previously_failed_channels.clone() };
-			let seed_bytes = rng.bytes32();
+			let seed_bytes = [rng.next() as u8; 32];
 			let scorer_kind = rng.below(3);
+			let q = Req { payer, payee, amt, maxfee, maxcltv: pp.max_total_cltv_expiry_delta as u64, maxpaths: pp.max_path_count as u64, maxlen: pp.max_path_length as u64, finalcltv: finalcltv as u64, excluded: pp.previously_failed_channels.clone(), mpp, satpow: pp.max_channel_saturation_power_of_half, scorer: scorer_kind, seed0: seed_bytes[0] };
 			let res = guarded(AssertUnwindSafe(|| match scorer_kind {
 				0 => find_route(&w.pks[payer], &params, &ng, None, &LOGGER, &prob_scorer, &prob_params, &seed_bytes),
 				1 => find_route(&w.pks[payer], &params, &ng, None, &LOGGER, &FixedPenaltyScorer::with_penalty(0), &(), &seed_bytes),
@@ -471,6 +474,64 @@ fn router_model(args: &Args) {
 
 fn near(rng: &mut Rng, c: u64) -> u64 { let d = rng.below(5); c.saturating_add(d).saturating_sub(2) }
 
+struct PrintLogger;
+impl lightning::util::logger::Logger for PrintLogger { fn log(&self, r: lightning::util::logger::Record) { if r.module_path.contains("router") { eprintln!("  [{:?}] {}", r.level, r.args); } } }
+static PRINT: PrintLogger = PrintLogger;
+
+/// `c16 c16replay --replay FILE`: re-run the real router on `route` / `noroute` op lines (graph rebuilt
+/// from the line through partial announcements + unsigned updates) with the router's log on stderr.
+fn replay_model(args: &Args) {
+	let file = args.replay.as_ref().expect("--replay FILE");
+	let secp = Secp256k1::new();
+	let mut pks = vec![];
+	for i in 0..40usize { let mut sk = [0u8; 32]; sk[31] = (i + 1) as u8; sk[0] = 0x42; pks.push(PublicKey::from_secret_key(&secp, &SecretKey::from_slice(&sk).unwrap())); }
+	let ids: Vec<NodeId> = pks.iter().map(|p| NodeId::from_pubkey(p)).collect();
+	let index: HashMap<NodeId, usize> = ids.iter().enumerate().map(|(i, id)| (*id, i)).collect();
+	let w = World { pks, ids, index };
+	let chain = ChainHash::using_genesis_block(Network::Testnet);
+	for line in std::fs::read_to_string(file).unwrap().lines() {
+		let ws: Vec<&str> = line.split_whitespace().collect();
+		if ws.len() < 16 || (ws[0] != "route" && ws[0] != "noroute") { continue; }
+		let num = |s: &str| s.parse::<u64>().unwrap();
+		let (payer, payee, amt) = (num(ws[1]) as usize, num(ws[2]) as usize, num(ws[3]));
+		let maxfee = if ws[4] == "-" { None } else { Some(num(ws[4])) };
+		let (maxcltv, maxpaths, maxlen, finalcltv, mpp, satpow, scorer, seed0) = (num(ws[5]), num(ws[6]), num(ws[7]), num(ws[8]), ws[9] == "1", num(ws[10]), num(ws[11]), num(ws[12]) as u8);
+		let nx = num(ws[14]) as usize;
+		let excluded: Vec<u64> = ws[15..15 + nx].iter().map(|s| num(s)).collect();
+		let gi = 15 + nx; assert_eq!(ws[gi], "G");
+		let nc = num(ws[gi + 1]) as usize;
+		let ng: NetworkGraph<&'static PrintLogger> = NetworkGraph::new(Network::Testnet, &PRINT);
+		let mut g = vec![];
+		for k in 0..nc {
+			let c = &ws[gi + 2 + 10 * k..gi + 12 + 10 * k];
+			let ch = Chan { scid: num(c[0]), src: num(c[1]) as usize, dst: num(c[2]) as usize, enabled: c[3] == "1", hmin: num(c[4]), hmax: num(c[5]), cap: if c[6] == "-" { None } else { Some(num(c[6])) }, base: num(c[7]), prop: num(c[8]), cltv: num(c[9]) };
+			let (one, two) = if w.ids[ch.src] < w.ids[ch.dst] { (ch.src, ch.dst) } else { (ch.dst, ch.src) };
+			let _ = ng.add_channel_from_partial_announcement(ch.scid, ch.cap.map(|m| m / 1000), 0, ChannelFeatures::empty(), w.ids[one], w.ids[two]);
+			let dir = if ch.src == one { 0u8 } else { 1u8 };
+			let upd = UnsignedChannelUpdate { chain_hash: chain, short_channel_id: ch.scid, timestamp: 2, message_flags: 1, channel_flags: dir | ((!ch.enabled as u8) << 1), cltv_expiry_delta: ch.cltv as u16,
+				htlc_minimum_msat: ch.hmin, htlc_maximum_msat: ch.hmax, fee_base_msat: ch.base as u32, fee_proportional_millionths: ch.prop as u32, excess_data: vec![] };
+			ng.update_channel_unsigned(&upd).unwrap();
+			g.push(ch);
+		}
+		let mut pp = if mpp { PaymentParameters::for_keysend(w.pks[payee], finalcltv as u32, true) } else { PaymentParameters::from_node_id(w.pks[payee], finalcltv as u32) };
+		pp.max_path_count = maxpaths as u8; pp.max_total_cltv_expiry_delta = maxcltv as u32; pp.max_path_length = maxlen as u8; pp.max_channel_saturation_power_of_half = satpow as u8; pp.previously_failed_channels = excluded.clone();
+		let params = RouteParameters { payment_params: pp, final_value_msat: amt, max_total_routing_fee_msat: maxfee };
+		let q = Req { payer, payee, amt, maxfee, maxcltv, maxpaths, maxlen, finalcltv, excluded, mpp, satpow: satpow as u8, scorer, seed0 };
+		let seed_bytes = [seed0; 32];
+		eprintln!("=== replay {} {} ...", ws[0], req_str(&q));
+		let res = guarded(AssertUnwindSafe(|| match scorer {
+			0 => find_route(&w.pks[payer], &params, &ng, None, &PRINT, &ProbabilisticScorer::new(ProbabilisticScoringDecayParameters::default(), &ng, &PRINT), &ProbabilisticScoringFeeParameters::default(), &seed_bytes),
+			1 => find_route(&w.pks[payer], &params, &ng, None, &PRINT, &FixedPenaltyScorer::with_penalty(0), &(), &seed_bytes),
+			_ => find_route(&w.pks[payer], &params, &ng, None, &PRINT, &FixedPenaltyScorer::with_penalty(rng_penalty(seed0)), &(), &seed_bytes),
+		}));
+		match res {
+			Err(p) => println!("panic {}", p),
+			Ok(Err(e)) => println!("err {} (reference: {})", e, if reference(&g, &q, &|c: &Chan| usable(&q, c)) { "found" } else { "none" }),
+			Ok(Ok(route)) => { let r = to_hops(&route, &w); println!("{} -> {:?}", route_str(&r), recheck(&g, &q, &r)); },
+		}
+	}
+}
+
 fn rng_penalty(b: u8) -> u64 { match b % 4 { 0 => 1, 1 => 500, 2 => 100_000, _ => 10_000_000 } }
 
 fn main() {
@@ -478,6 +539,7 @@ fn main() {
 	match args.model.as_str() {
 		"c16fees" => fees_model(args),
 		"c16router" => router_model(args),
+		"c16replay" => replay_model(args),
 		m => { eprintln!("unknown model {}", m); std::process::exit(2); },
 	}
 }
